@@ -31,6 +31,7 @@ type wireD struct {
 	kind     int // 0 none, 1 one-byte, 2 two-byte, 3 legacy
 	items    []wItem
 	profile  int
+	appbits  int // kind 2: the low four bits of the profile 0x100X
 	body     []byte
 	payload  []byte
 	padfill  []byte
@@ -71,7 +72,7 @@ func (w wireD) block() []byte {
 	if w.kind == 0 {
 		return nil
 	}
-	prof := map[int]int{1: 0xBEDE, 2: 0x1000, 3: w.profile}[w.kind]
+	prof := map[int]int{1: 0xBEDE, 2: 0x1000 | w.appbits, 3: w.profile}[w.kind]
 	body := w.blockBody()
 	return append([]byte{byte(prof >> 8), byte(prof), byte(len(body) / 4 >> 8), byte(len(body) / 4)}, body...)
 }
@@ -125,6 +126,9 @@ func (w wireD) tok() Tok {
 			}
 		}
 		ext = TList{TI(int64(w.kind)), its}
+		if w.kind == 2 {
+			ext = TList{TI(2), its, TI(int64(w.appbits))}
+		}
 	default:
 		ext = TList{TI(3), TI(int64(w.profile)), TBytes(w.body)}
 	}
@@ -165,6 +169,7 @@ func genWire(c *RNG, allowReserved bool) wireD {
 			}
 		}
 	case 2:
+		w.appbits = int(twoByteProfile(c) & 0xF)
 		ids := perm(c, 255)
 		for i, n := 0, c.Intn(6); i < n; i++ {
 			pads()
@@ -204,6 +209,9 @@ func wireFromTok(t Tok) wireD {
 	w.kind = int(tokInt(e[0]))
 	switch w.kind {
 	case 1, 2:
+		if w.kind == 2 && len(e) > 2 { // cases recorded before D31 have no appbits token
+			w.appbits = int(tokInt(e[2]))
+		}
 		for _, it := range tokList(e[1]) {
 			il := tokList(it)
 			switch tokInt(il[0]) {
@@ -333,6 +341,7 @@ func init() {
 				n, err := ext.Unmarshal(buf)
 				if err != nil {
 					o.Impl = errV(err)
+					o.Fail = fmt.Sprintf("the view refused the well-formed block %x: %v", buf, err)
 					return
 				}
 				got := ext.GetIDs()
@@ -406,6 +415,19 @@ func init() {
 				if ids := ext.GetIDs(); len(ids) != 1 || ids[0] != 0 || !bytes.Equal(m, buf) {
 					o.Fail = "raw view: ids or re-serialisation wrong"
 				}
+				// "decode the same well-formed block to the same ids and values": the value Header.Unmarshal reports
+				// for this block (as the extension of an otherwise empty packet) is the block without its four-byte
+				// profile/length header
+				var hdr rtp.Header
+				pkt := append([]byte{0x90, 96, 0, 1, 0, 0, 0, 2, 0, 0, 0, 3}, buf...)
+				if _, herr := hdr.Unmarshal(pkt); herr == nil && o.Fail == "" {
+					if hv := hdr.GetExtension(0); !bytes.Equal(v, hv) {
+						o.Fail = fmt.Sprintf("raw view Get(0) = %x, Header.GetExtension(0) of the same block = %x", v, hv)
+						if bytes.Equal(v, buf) && len(buf) >= 4 && bytes.Equal(hv, buf[4:]) {
+							o.Known = "KF-C03-raw-view-value"
+						}
+					}
+				}
 			})
 			if pn {
 				o.Impl, o.Fail = PanicV(), "panic: "+what
@@ -426,6 +448,8 @@ func init() {
 				kf := wireD{version: 2, pt: 96, seq: 7, ts: 9, ssrc: 5, kind: 1, payload: []byte{0xAA, 0xBB},
 					items: []wItem{{id: 1, val: []byte{1, 2}}, {reserved: true, nibble: 3}, {pad: true}, {pad: true}, {pad: true}, {pad: true}}}
 				emit(305, kf.tok(), TBytes(kf.encode()))
+				// the second known finding as a fixed witness: the raw view of a legacy block of one word
+				emit(304, TBytes([]byte{0x12, 0x34, 0x00, 0x01, 0xde, 0xad, 0xbe, 0xef}))
 			}
 			{
 				// a maximal two-byte block (65535 words) packed with elements, whose last element starts in
